@@ -683,6 +683,9 @@ enum Step {
     HDel(String, String),
     Flush,
     Compact,
+    /// two successive writes of one key whose deltas reach the sink in the opposite order (the sink is fed from the
+    /// clients' tasks after the shard actor replied, so concurrent writers of a key arrive out of stamp order)
+    SetSwapped(String, String, String),
 }
 
 #[derive(Clone, Debug, Serialize, Deserialize)]
@@ -729,7 +732,18 @@ async fn run_exec(steps: &[Step], cfg: &XCfg, plan: &BTreeMap<u64, Fault>) -> Ex
             _ => None,
         };
         let mut site = "push";
-        if let Some(d) = delta {
+        if let Step::SetSwapped(k, v1, v2) = st {
+            let d1 = shard.record_write(k.clone(), SDS::from_str(v1), None);
+            let d2 = shard.record_write(k.clone(), SDS::from_str(v2), None);
+            for d in [d2, d1] {
+                if pers.push(d.clone()).is_ok() {
+                    pending.push(pushed.len());
+                    pushed.push(d);
+                    bump("pushes");
+                    bump("pushes_out_of_stamp_order");
+                }
+            }
+        } else if let Some(d) = delta {
             if pers.push(d.clone()).is_ok() {
                 pending.push(pushed.len());
                 pushed.push(d);
@@ -916,7 +930,8 @@ fn gen_workload(rng: &mut Rng, b: u64) -> (Vec<Step>, XCfg) {
         let hk = hkeys[rng.gen_range(0..2)].to_string();
         let f = format!("f{}", rng.gen_range(0..3));
         let step = match rng.gen_range(0..100) {
-            0..=24 => Step::Set(sk, v),
+            0..=20 => Step::Set(sk, v),
+            21..=24 => Step::SetSwapped(sk, format!("{}a", v), format!("{}b", v)),
             25..=34 => Step::Del(sk),
             35..=49 => Step::HSet(hk, f, v),
             50..=56 => Step::HDel(hk, f),
